@@ -295,8 +295,16 @@ func lanCIDR(k int) (string, int, int) {
 }
 
 // topologies returns the generated family: flat, one NAT, nested NATs to depth 3, 1:1 NAT.
-func topologies(rng *rand.Rand) [][2]any {
-	nt := func() (string, string) { return behNames[rng.Intn(3)], behNames[rng.Intn(3)] }
+// The NAT types of the LAN routers are dealt from a seeded permutation of the nine combinations, one per
+// router and repetition, so that nine repetitions show every router position every type (and three
+// repetitions every type somewhere) whatever the scheduler does to the rest of the random choices.
+func topologies(rng *rand.Rand, perm []int, draw *int) [][2]any {
+	nt := func() (string, string) {
+		c := perm[*draw%9]
+		*draw++
+
+		return behNames[c/3], behNames[c%3]
+	}
 	root := rtrDesc{ID: 1, Lo: 0, Hi: 255, Wan: []int{}, Mode: "napt", MapB: "ind", FiltB: "ind", Pairs: [][2]int{}, cidr: "1.2.3.0/24"}
 	lan := func(id, parent, k int, wan []int) rtrDesc {
 		c, lo, hi := lanCIDR(k)
@@ -309,7 +317,7 @@ func topologies(rng *rand.Rand) [][2]any {
 	out = append(out, [2]any{[]rtrDesc{root}, []hostDesc{{1, 1, []int{21}}, {2, 1, []int{22, 23}}, {3, 1, []int{24}}}})
 	// one NAT (two WAN addresses half of the time)
 	wan := []int{10}
-	if rng.Intn(2) == 0 {
+	if (*draw/4)%2 == 0 {
 		wan = []int{10, 11}
 	}
 	out = append(out, [2]any{
@@ -339,8 +347,10 @@ func TestVerifVNet(t *testing.T) { //nolint:cyclop,gocognit
 	rng := rand.New(rand.NewSource(vrt.Seed())) //nolint:gosec
 	reps := vrt.EnvInt("VERIF_REPS", 3)
 	burst := vrt.EnvInt("VERIF_BURST", 20)
+	perm := rand.New(rand.NewSource(vrt.Seed() + 77)).Perm(9) //nolint:gosec
+	draw := 0
 	for rep := 0; rep < reps; rep++ {
-		for _, tp := range topologies(rng) {
+		for _, tp := range topologies(rng, perm, &draw) {
 			rs, hs := tp[0].([]rtrDesc), tp[1].([]hostDesc) //nolint:forcetypeassert
 			synctest.Test(t, func(*testing.T) {
 				w := build(tr, rng, rs, hs)
